@@ -7,11 +7,15 @@ served round-robin by the consumer.
 The `sync.Map` lookup of the sender box has no atomic site of its own and never removes a box; a box
 that was never used is indistinguishable from an absent one, so boxes exist from the start.
 `sync.Pool` of sender nodes: as pinned by the harness (one P, no GC): private slot, then LIFO.
+`Enqueue` counts first (`Add:length`, `Add:pending`), then publishes into the sender's sub-queue, and
+activates the sender afterwards when its `Add:pending` returned 1 (that fact travels with the `ub`
+program counter of the publication).
 In `finalizeSender` the statement `if Load(pending) > 0 && active.CAS(false,true)` holds two atomic
 operations; the instrumentation parks twice before it (`Load:pending`, `CAS:active`) and executes
 both in the second step — mirrored here (`j5` is a no-op, `j6` does both); likewise the re-check
-`if Load(m.length) > 0 && Load(pending) > 0 && active.CAS(false,true)` of Dequeue's nil branch
-(`i2`, `i3` park only, `i4` does all three).
+`if Load(m.length) > 0 && Load(pending) > 0` of Dequeue's nil branch (`i2` parks only, `i3` does both
+loads): true → `CAS:active` (`i4`), re-list on success, return nil; false → the sender had nothing to
+deliver, Dequeue goes on with the next active sender (`g1`).
 -/
 import GoaktVerif.Model.C04.Core
 import GoaktVerif.Model.C04.Unbounded
@@ -58,10 +62,10 @@ def Sh.poolPut (s : Sh) (x : Nat) : Sh :=
   | some _ => { s with poolShared := x :: s.poolShared }
 
 inductive PC where
-  | ub (k : Nat) (pc : Unbounded.PC)        -- inside sq.mailbox.Enqueue / sq.mailbox.Dequeue of sender k
-  | f4 (k : Nat)                            -- Enqueue: `Add:length` (+1)
-  | f5 (k : Nat)                            --   `Add:pending` (+1)
-  | f6 (k : Nat)                            --   pending == 1: `CAS:active` (false → true) [pool.Get]
+  | ub (k : Nat) (first : Bool) (pc : Unbounded.PC)  -- inside sq.mailbox.Enqueue / Dequeue of sender k; first: this Enqueue's Add:pending returned 1
+  | f4 (k v : Nat)                          -- Enqueue: `Add:length` (+1)
+  | f5 (k v : Nat)                          --   `Add:pending` (+1); then sq.mailbox.Enqueue
+  | f6 (k : Nat)                            --   pending was 1: `CAS:active` (false → true) [pool.Get]
   | a1 (k n : Nat) (r : Res)                -- activeSenders.enqueue: `Store:value`
   | a2 (k n : Nat) (r : Res)                --   `Store:next` (nil)
   | a3 (k n : Nat) (r : Res)                --   `Swap:tail`
@@ -74,8 +78,8 @@ inductive PC where
   | g6 (h : Nat) (v : Option Nat)           --   `Store:value` (head.value := nil) [pool.Put]
   | i1 (k : Nat)                            -- sub-queue looked empty: `Store:active` (false)
   | i2 (k : Nat)                            --   `Load:length` (parks only)
-  | i3 (k : Nat)                            --   `Load:pending` (parks only)
-  | i4 (k : Nat)                            --   `CAS:active` [length > 0 && pending > 0 && CAS(false,true)]; return nil
+  | i3 (k : Nat)                            --   `Load:pending` [length > 0 && pending > 0]: i4, else next sender
+  | i4 (k : Nat)                            --   `CAS:active` (false → true) [re-list]; return nil
   | j1 (k n : Nat)                          -- `Add:length` (-1)
   | j2 (k n : Nat)                          -- `Add:pending` (-1) → remaining
   | j3 (k n : Nat)                          -- finalizeSender, remaining < 0: `Store:pending` (0)
@@ -86,14 +90,14 @@ inductive PC where
   deriving Repr, DecidableEq
 
 def start : Op → PC
-  | .enq v k => .ub k (.enq1 v)
+  | .enq v k => .f4 k v
   | .deq => .g1
   | .emp => .l1 true
   | .len => .l1 false
 
 def label : PC → String
-  | .ub _ pc => Unbounded.label pc
-  | .f4 _ => "Add:length" | .f5 _ => "Add:pending" | .f6 _ => "CAS:active"
+  | .ub _ _ pc => Unbounded.label pc
+  | .f4 _ _ => "Add:length" | .f5 _ _ => "Add:pending" | .f6 _ => "CAS:active"
   | .a1 _ _ _ => "Store:value" | .a2 _ _ _ => "Store:next" | .a3 _ _ _ => "Swap:tail" | .a4 _ _ _ => "Store:next"
   | .g1 => "Load:head" | .g2 _ => "Load:next" | .g3 _ _ => "Store:head" | .g4 _ _ => "Load:value"
   | .g5 _ _ => "Store:next" | .g6 _ _ => "Store:value"
@@ -108,18 +112,18 @@ def activate (s : Sh) (k : Nat) (r : Res) : Sh × Next PC :=
   (g.1, .goto (.a1 k g.2 r))
 
 def exec (s : Sh) : PC → Sh × Next PC
-  | .ub k pc =>
+  | .ub k first pc =>
     let r := Unbounded.exec (s.boxes k).mb pc
     let s' := s.updBox k fun b => { b with mb := r.1 }
     match r.2 with
-    | .goto pc' => (s', .goto (.ub k pc'))
+    | .goto pc' => (s', .goto (.ub k first pc'))
     | .ret (.val n) => (s', .goto (.j1 k n))         -- sq.mailbox.Dequeue returned a message
     | .ret .none => (s', .goto (.i1 k))              -- … returned nil
-    | .ret _ => (s', .goto (.f4 k))                  -- sq.mailbox.Enqueue returned
-  | .f4 k => ({ s with length := s.length + 1 }, .goto (.f5 k))
-  | .f5 k =>
+    | .ret _ => (s', if first then .goto (.f6 k) else .ret .ok)   -- sq.mailbox.Enqueue returned
+  | .f4 k v => ({ s with length := s.length + 1 }, .goto (.f5 k v))
+  | .f5 k v =>
     let p := (s.boxes k).pending + 1
-    (s.updBox k fun b => { b with pending := p }, if p = 1 then .goto (.f6 k) else .ret .ok)
+    (s.updBox k fun b => { b with pending := p }, .goto (.ub k (p == 1) (.enq1 v)))
   | .f6 k =>
     if (s.boxes k).active = false then activate (s.updBox k fun b => { b with active := true }) k .ok
     else (s, .ret .ok)
@@ -139,13 +143,12 @@ def exec (s : Sh) : PC → Sh × Next PC
     let s' := (s.setAVal h none).poolPut h
     match v with
     | none => (s', .ret .none)
-    | some k => (s', .goto (.ub k .deq1))
+    | some k => (s', .goto (.ub k false .deq1))
   | .i1 k => (s.updBox k fun b => { b with active := false }, .goto (.i2 k))
   | .i2 k => (s, .goto (.i3 k))
-  | .i3 k => (s, .goto (.i4 k))
+  | .i3 k => (s, if s.length > 0 && (s.boxes k).pending > 0 then .goto (.i4 k) else .goto .g1)
   | .i4 k =>
-    if s.length > 0 && (s.boxes k).pending > 0 && (s.boxes k).active = false then
-      activate (s.updBox k fun b => { b with active := true }) k .none
+    if (s.boxes k).active = false then activate (s.updBox k fun b => { b with active := true }) k .none
     else (s, .ret .none)
   | .j1 k n => ({ s with length := s.length - 1 }, .goto (.j2 k n))
   | .j2 k n =>
